@@ -458,3 +458,825 @@ def run_c20(tier, seed, replay=None, theorems=None, module=None):
         return rep.finish()
     finally:
         H.cleanup()
+
+
+# ============================================================================================== C15
+
+C15_N = {"quick": 120, "thorough": 1200}
+C15_STREAMS = [("dense", 3), ("sparse", 2), ("parallel", 1), ("xfer", 1), ("overlap", 1), ("tmpl", 1)]
+C15_NAMES = ["all", "schedules", "scenarios,schedules", "schedules,scenarios"]
+C15_KIND_FILES = {"agencies": "agencies.capnpbin", "services": "services.capnpbin", "nodes": "nodes.capnpbin", "lines": "lines.capnpbin",
+                  "paths": "paths.capnpbin", "scenarios": "scenarios.capnpbin", "schedules": "lines"}
+C15_RULE = ("N histories against the real ASan server behind the router stub, both cache kinds: dataset A, 2-4 refresh rounds; before each refresh the cache "
+            "directory is rewritten (in place, or into a sub-directory passed as path=) with dataset B = previous one with trips shifted / removed / added / "
+            "flags changed, scenarios changed when they are refreshed, for names=all sometimes an unrelated dataset or changed footpaths / distances, sometimes "
+            "B = A; GET /updateCache?names=all | schedules | scenarios,schedules | schedules,scenarios; 4-10 requests per round from a pool of 10 (route, "
+            "route+alternatives, summary, accessibility over 2-3 scenarios); every answer after a refresh is compared with the answer of a FRESH server "
+            "started on the directory as it is then (direct) and with the in-process calculation on B and the Lean model (correspondence); special histories: "
+            "start on an EMPTY directory then files appear, refresh onto an empty / partial directory then back; non-trivial = success answer after a refresh "
+            "that differs from the answer to the same request before it; distinct = distinct (history, round, request, answer)")
+
+
+def c15_mutate_trips(rng, d, counter):
+    """B's timetable: same stops, lines, paths; trips shifted, removed, added, boarding flags changed"""
+    trips = []
+    for (p, sv, tid, arr, dep, cb, cu) in d["trips"]:
+        r = rng.random()
+        if r < 0.18 and len(d["trips"]) > 1:
+            continue                                             # removed
+        if r < 0.55:
+            delta = rng.choice([-600, -300, -120, -60, 60, 120, 300, 600, 1800])
+            if min(arr) + delta < 0: delta = abs(delta)
+            arr = [t + delta for t in arr]; dep = [t + delta for t in dep]
+        elif r < 0.65:
+            cb = [1 - x if rng.random() < 0.3 else x for x in cb]; cu = [1 - x if rng.random() < 0.3 else x for x in cu]
+        elif r < 0.72:
+            sv = rng.randrange(d["nsv"])
+        trips.append((p, sv, tid, list(arr), list(dep), list(cb), list(cu)))
+    for _ in range(rng.choice([0, 0, 1, 1, 2, 3])):
+        p, sv, tid, arr, dep, cb, cu = rng.choice(d["trips"])
+        delta = rng.choice([-900, -420, -180, 180, 420, 900, 2400])
+        if min(arr) + delta < 0: delta = abs(delta)
+        counter[0] += 1
+        trips.append((p, rng.randrange(d["nsv"]) if rng.random() < 0.3 else sv, 200 + counter[0], [t + delta for t in arr], [t + delta for t in dep], [1] * len(arr), [1] * len(arr)))
+    if not trips:
+        trips = [d["trips"][0]]
+    if rng.random() < 0.3:
+        rng.shuffle(trips)
+    return dict(d, trips=trips)
+
+
+def c15_mutate_scenarios(rng, d):
+    sc = [dict(s) for s in d["scenarios"]]
+    r = rng.random()
+    if r < 0.6:
+        for i in range(len(sc)):
+            if rng.random() < 0.6:
+                sc[i] = random_scenario(rng, d)
+    elif r < 0.8 and len(sc) > 1:
+        sc.pop()                                                 # a scenario disappears: requests naming it must now get MISSING_PARAM_SCENARIO
+    else:
+        sc.append(random_scenario(rng, d))
+    return dict(d, scenarios=sc)
+
+
+def c15_mutate_base(rng, d):
+    """for names=all: footpaths and path distances change too (stops, lines, paths keep their identity)"""
+    foot = [(a, b, t, x) if a == b or rng.random() < 0.5 else (a, b, rng.choice([30, 60, 120, 300, 1500]), rng.randint(0, 400)) for a, b, t, x in d["foot"]]
+    if rng.random() < 0.5 and d["ns"] > 2:
+        a, b = rng.sample(range(d["ns"]), 2)
+        if not any(f[0] == a and f[1] == b for f in foot): foot.append((a, b, rng.choice([30, 60, 120]), rng.randint(0, 300)))
+    paths = [(l, st, [rng.randint(1, 50) for _ in st[:-1]] if rng.random() < 0.5 else di) for l, st, di in d["paths"]]
+    return dict(d, foot=foot, paths=paths)
+
+
+def c15_plan(seed, k):
+    rng = random.Random(seed * 1000003 + k)
+    stream = HC._pick(rng, C15_STREAMS)
+    for _ in range(20):
+        d = dataset_with_scenarios(rng, stream)
+        if not HC.c16_wellformed(d): break
+    d["cacheall"] = k % 2
+    special = {0: "empty-start", 4: "onto-empty", 8: "onto-partial", 12: "onto-partial"}.get(k % 16)
+    pool = []
+    nsc = len(d["scenarios"])
+    for j in range(10):
+        kind = ("route", "route", "route", "route", "summary", "summary", "accessibility", "accessibility", "route", "accessibility")[j]
+        q = gen.gen_query(rng, d, alt=(j in (3, 5)), limits=(rng.random() < 0.3))
+        q["scenario"] = j % min(3, nsc) if j < 9 else nsc - 1
+        pool.append((kind, HC.c16_sanitise_query(q)))
+    counter = [0]
+    rounds = [dict(r=0, names=None, mode="start-empty" if special == "empty-start" else "start", delete=[], d=d, what="A",
+                   queries=[rng.randrange(len(pool)) for _ in range(rng.randint(4, 8))])]
+    cur = d
+    nr = rng.randint(2, 4)
+    for r in range(1, nr + 1):
+        names = rng.choice(C15_NAMES)
+        mode = rng.choice(["inplace", "inplace", "custom"])
+        delete, what = [], []
+        if special == "empty-start" and r == 1:
+            names, mode, new, what = "all", "inplace", cur, ["files appear"]
+        elif special in ("onto-empty", "onto-partial") and r == 1:
+            names, new = "all", cur
+            delete = ["everything"] if special == "onto-empty" else [rng.choice(["agencies", "nodes", "lines", "paths", "scenarios", "schedules", "services"])]
+            what = ["delete " + delete[0]]
+        elif special in ("onto-empty", "onto-partial") and r == 2:
+            names, new, what = "all", cur, ["files are back"]
+        else:
+            x = rng.random()
+            if x < 0.12:
+                new, what = cur, ["unchanged"]
+            elif names == "all" and x < 0.35:
+                for _ in range(20):
+                    new = dataset_with_scenarios(random.Random(seed * 1000003 + 700000 + k * 10 + r), rng.choice([s for s, w in C15_STREAMS]))
+                    if not HC.c16_wellformed(new): break
+                new["cacheall"] = d["cacheall"]; what = ["unrelated dataset"]
+            else:
+                new = c15_mutate_trips(rng, cur, counter); what = ["trips"]
+                if "scenarios" in names or names == "all":
+                    if rng.random() < 0.6: new = c15_mutate_scenarios(rng, new); what.append("scenarios")
+                if names == "all" and rng.random() < 0.4:
+                    new = c15_mutate_base(rng, new); what.append("footpaths/distances")
+        prevq = rounds[-1]["queries"]
+        qs = [rng.choice(prevq) for _ in range(2)] + [rng.randrange(len(pool)) for _ in range(rng.randint(2, 8))]
+        rng.shuffle(qs)
+        rounds.append(dict(r=r, names=names, mode=mode, delete=delete, d=new, what="+".join(what), queries=qs))
+        cur = new
+    return dict(did="C15-%d-%d" % (seed, k), pool=pool, rounds=rounds, threads=rng.choice([1, 2]), cacheall=d["cacheall"], stream=stream, special=special or "plain")
+
+
+def c15_replay_text(h, upto=None):
+    rounds = h["rounds"] if upto is None else h["rounds"][:upto + 1]
+    out = ["# C15 replay: `server`, then per round a header line and the dataset on disk for that round (the request lines of round 0 are the pool)\n",
+           "server threads=%d cacheall=%d\n" % (h["threads"], h["cacheall"])]
+    for rd in rounds:
+        out.append("round %d names=%s mode=%s delete=%s queries=%s\n" % (rd["r"], rd["names"] or "-", rd["mode"], ",".join(rd["delete"]) or "-", ",".join(map(str, rd["queries"]))))
+        out.append(HC.block_text("%s.v%d" % (h["did"], rd["r"]), rd["d"], h["pool"] if rd["r"] == 0 else []))
+    return "".join(out)
+
+
+def c15_parse_replay(text):
+    hs, h, rd, block = [], None, None, []
+    for line in text.splitlines(True):
+        if line.startswith("#") or not line.strip(): continue
+        ws = line.split()
+        if ws[0] == "server":
+            kv = dict(x.split("=") for x in ws[1:])
+            h = dict(did="C15-replay-%d" % len(hs), pool=[], rounds=[], threads=int(kv.get("threads", 1)), cacheall=int(kv.get("cacheall", 0)), stream="replay", special="replay"); hs.append(h)
+        elif ws[0] == "round":
+            kv = dict(x.split("=", 1) for x in ws[2:])
+            rd = dict(r=int(ws[1]), names=None if kv["names"] == "-" else kv["names"], mode=kv["mode"], delete=[] if kv["delete"] == "-" else kv["delete"].split(","),
+                      queries=[int(x) for x in kv["queries"].split(",") if x], what="replay", d=None)
+            h["rounds"].append(rd); block = []
+        else:
+            block.append(line)
+            if ws[0] == "end":
+                did, d, reqs, _ = gen.parse_protocol("".join(block))
+                d["acc"] = sorted(d["acc"]); d["egr"] = sorted(d["egr"]); d["cacheall"] = h["cacheall"]
+                rd["d"] = d
+                if rd["r"] == 0:
+                    h["pool"] = [(k, HC.c16_sanitise_query(q)) for k, q in (gen.parse_query(r) for r in reqs) if k in ("route", "summary", "accessibility")]
+    return hs
+
+
+def c15_write_dir(d, path, delete, cachegen_exe, did):
+    H.make_cache(d, path, did=did, cachegen=cachegen_exe)
+    for kind in delete:
+        if kind == "everything":
+            shutil.rmtree(path); os.makedirs(path)
+        else:
+            p = os.path.join(path, C15_KIND_FILES[kind])
+            if os.path.isdir(p): shutil.rmtree(p)
+            elif os.path.exists(p): os.remove(p)
+
+
+def c15_serve(h, server_exe, cachegen_exe, timeout=30.0):
+    """one history: the long-lived server + one fresh server per refresh point"""
+    out = dict(rounds=[], startup=None, rc=None, san="", died=False, t=0.0)
+    t0 = time.time()
+    base = os.path.join(H.workdir("c15"), h["did"])
+    stub = srv = fresh = None
+    urls = [H.route_query(q, kind) for kind, q in h["pool"]]
+    try:
+        d0 = h["rounds"][0]["d"]
+        stub = H.start_stub(d0["acc"], d0["egr"])
+        for rd in h["rounds"]:
+            rec = dict(r=rd["r"], update=None, long=[], fresh=[], fresh_failed=None, died=None)
+            out["rounds"].append(rec)
+            d = rd["d"]
+            if rd["r"] == 0:
+                if rd["mode"] == "start-empty":
+                    if os.path.isdir(base): shutil.rmtree(base)
+                    os.makedirs(base)
+                else:
+                    c15_write_dir(d, base, rd["delete"], cachegen_exe, h["did"])
+                srv = H.start_server(base, threads=h["threads"], cache_all=bool(h["cacheall"]), osrm_port=stub.port, exe=server_exe, tag=h["did"])
+                if srv is None or not srv.alive() or getattr(srv, "ready_s", None) is None:
+                    out["startup"] = "server did not come up: " + ((srv.sanitizer_output() or srv.output()[-600:]) if srv else "no handle")
+                    return out
+                for i in rd["queries"]:
+                    st, hd, body, raw = srv.get(urls[i], timeout=timeout)
+                    rec["long"].append((st, hd, body))
+                    if not srv.alive(): break
+                if not srv.alive():
+                    rec["died"] = "before any refresh"; return out
+                continue
+            # ---- disk changes
+            sub = "v%d" % rd["r"] if rd["mode"] == "custom" else None
+            path = os.path.join(base, sub) if sub else base
+            c15_write_dir(d, path, rd["delete"], cachegen_exe, h["did"])
+            stub.set_tables(d["acc"], d["egr"])
+            # ---- the reference: a fresh server on the files now on disk (started first: if IT cannot start, the directory is outside C15)
+            fresh = H.start_server(path, threads=1, cache_all=bool(h["cacheall"]), osrm_port=stub.port, exe=server_exe, tag=h["did"] + "-fresh%d" % rd["r"])
+            if fresh is None or not fresh.alive() or getattr(fresh, "ready_s", None) is None:
+                rec["fresh_failed"] = asan_summary((fresh.sanitizer_output() or fresh.output()[-800:]) if fresh else "no handle")
+                if fresh is not None: fresh.stop(); fresh = None
+                return out
+            # ---- refresh
+            u = "/updateCache?names=%s%s" % (rd["names"], "&path=" + sub if sub else "")
+            st, hd, body, raw = srv.get(u, timeout=timeout)
+            rec["update"] = (u, st, hd, body)
+            if st is None or not srv.alive():
+                time.sleep(0.5)
+                rec["died"] = "during " + u if not srv.alive() else None
+                if rec["died"]: return out
+            for i in rd["queries"]:
+                st, hd, body, raw = srv.get(urls[i], timeout=timeout)
+                rec["long"].append((st, hd, body))
+                if not srv.alive():
+                    time.sleep(0.5); rec["died"] = "during GET " + urls[i]; return out
+            for i in rd["queries"]:
+                st, hd, body, raw = fresh.get(urls[i], timeout=timeout)
+                rec["fresh"].append((st, hd, body))
+            fdied = not fresh.alive()
+            frc, fsan = fresh.stop(); fresh = None
+            if fdied or fsan:
+                rec["fresh_san"] = "fresh server %s: %s" % ("died (rc %s)" % frc if fdied else "sanitizer report", asan_summary(fsan))
+    except Exception as e:
+        out["startup"] = "harness error: %r" % (e,)
+    finally:
+        if fresh is not None:
+            fresh.stop()
+        if srv is not None:
+            died = not srv.alive()
+            rc, san = srv.stop()
+            out["rc"], out["san"], out["died"] = rc, san, died
+            if died and not san:
+                out["san"] = srv.output()[-1500:]
+        if stub is not None:
+            stub.stop()
+        shutil.rmtree(base, ignore_errors=True)
+        out["t"] = time.time() - t0
+    return out
+
+
+def run_c15(tier, seed, replay=None, theorems=None, module=None):
+    ths = theorems or []
+    rep = core.Report("C15", tier, seed, level="proof" if ths else "exploration")
+    rep.rule = C15_RULE
+    rep.assumptions = [
+        "refreshes are performed while no other request is in flight (requests of a history are sent one after the other)",
+        "only files of the kinds being refreshed change on disk (a schedules-only refresh changes the per-line schedule files only; scenarios change only when they are refreshed)",
+        "a directory on which a FRESH server cannot start at all (start-up abort: property C17) is outside C15: the history ends there and is counted, not judged",
+        "what freed memory happens to contain is not exhibited by any model: use of stale data is observed with ASan on the real binary",
+        "the walking router is the scripted stub (table), as in C16",
+    ]
+    stats = collections.Counter()
+    try:
+        model = core.lean_phase(rep, module if ths else None, ths, thorough=(tier == "thorough"))
+        impl = core.harness_phase(rep, "core", "asan")
+        server = core.harness_phase(rep, "server", "asan")
+        cachegen = core.harness_phase(rep, "cachegen", "plain")
+        try:
+            codes = HC.documented_codes()
+            rep.obligation("docs:error-code-enums", True, "")
+        except Exception as e:
+            rep.obligation("docs:error-code-enums", False, str(e)); codes = None
+        if not model or not impl or not server or not cachegen or not codes:
+            return rep.finish()
+        if replay:
+            hs = c15_parse_replay(open(replay).read())
+        else:
+            hs = [c15_plan(seed, k) for k in range(C15_N["thorough" if tier == "thorough" else "quick"])]
+        # abstract side: every round's requests on that round's dataset, in-process + Lean model
+        flat = []
+        for h in hs:
+            for rd in h["rounds"]:
+                if rd["delete"] or rd["mode"] == "start-empty": continue
+                did = "%s.r%d" % (h["did"], rd["r"])
+                rq = [h["pool"][i] for i in rd["queries"]]
+                flat.append((did, HC.block_text(did, rd["d"], rq), [k for k, q in rq]))
+        t0 = time.time()
+        res = engine.run_cases(flat, impl, model)
+        t_inproc = time.time() - t0
+        t0 = time.time()
+        with ThreadPoolExecutor(max_workers=PAR) as ex:
+            served = list(ex.map(lambda h: c15_serve(h, server, cachegen), hs))
+        t_http = time.time() - t0
+        dd = Dedup(rep, stats)
+        for h, sv in zip(hs, served):
+            stats["histories %s" % h["special"]] += 1
+            stats["histories cache %s" % ("All" if h["cacheall"] else "One")] += 1
+            if sv["startup"]:
+                dd.add("server-startup", "real server did not start: " + sv["startup"][:300], c15_replay_text(h, 0)); continue
+            last = {}           # pool index -> answer key of the most recent earlier answer
+            for rd, rec in zip(h["rounds"], sv["rounds"]):
+                r = rd["r"]
+                rt = c15_replay_text(h, r)
+                if r > 0:
+                    stats["rounds names=%s" % rd["names"]] += 1
+                    stats["rounds mode=%s" % rd["mode"]] += 1
+                    stats["rounds change=%s" % rd["what"]] += 1
+                if replay:
+                    print("round %d  names=%s mode=%s delete=%s change=%s" % (r, rd["names"], rd["mode"], rd["delete"], rd["what"]))
+                if rec["fresh_failed"]:
+                    stats["fresh server does not start on the new directory (C17 domain, history ends)"] += 1
+                    rep.notes.append("%s round %d (%s): a FRESH server does not start on this directory (%s): outside C15, see C17" % (h["did"], r, rd["what"], rec["fresh_failed"][:160]))
+                    break
+                if rec.get("fresh_san"):
+                    rep.notes.append("%s round %d: %s" % (h["did"], r, rec["fresh_san"][:200]))
+                    stats["fresh server crashed / sanitizer report while answering (not judged here)"] += 1
+                if rec["died"]:
+                    dd.add("crash-after-refresh", "history %s round %d (%s; names=%s, cache %s): the server process died %s: %s" % (
+                        h["did"], r, rd["what"], rd["names"], "All" if h["cacheall"] else "One", rec["died"], asan_summary(sv["san"])), rt)
+                    break
+                if rec["update"] is not None:
+                    u, st, hd, body = rec["update"]
+                    j = parse_body(body) if st == 200 else None
+                    if replay: print("   GET %s -> %s %r" % (u, st, body[:160]))
+                    if st is None:
+                        # the refresh did not complete: C15 speaks of COMPLETED refreshes, so the answers that follow are not judged;
+                        # an unanswered /updateCache on a server that stays up is reported under its own signature
+                        stats["refresh unanswered (history ends)"] += 1
+                        dd.add("refresh-unanswered", "history %s round %d (%s): GET %s got no HTTP response (%s), the process stays up with a half-refreshed data set; e.g. the next request, GET %s, is answered %s "
+                               "while a server freshly started on that directory answers %s" % (h["did"], r, rd["what"], u, hd.get("_error"), H.route_query(h["pool"][rd["queries"][0]][1], h["pool"][rd["queries"][0]][0]),
+                                                                                              brief(*rec["long"][0]) if rec["long"] else "-", brief(*rec["fresh"][0]) if rec["fresh"] else "-"), rt)
+                        break
+                    if not (j and j.get("status") == "success"):
+                        dd.add("refresh-not-completed", "history %s round %d: GET %s answered %s %r" % (h["did"], r, u, st, body[:160]), rt)
+                        break
+                ir = res.get("%s.r%d" % (h["did"], r))
+                for n, i in enumerate(rd["queries"]):
+                    kind, q = h["pool"][i]
+                    url = H.route_query(q, kind)
+                    if n >= len(rec["long"]): break
+                    st, hd, body = rec["long"][n]
+                    key = answer_key(kind, st, body)
+                    rep.evaluations += 1
+                    bad, j = well_formed(kind, st, hd, body, codes, allow_data_error=True)
+                    stats["answers %s" % ("after refresh" if r else "before any refresh")] += 1
+                    stats["answer %s" % brief(st, hd, body).replace("HTTP ", "")] += 1
+                    if bad:
+                        dd.add("bad-response-after-refresh" if r else "bad-response", "history %s round %d: GET %s: %s" % (h["did"], r, url, bad), rt)
+                    if r > 0 and n < len(rec["fresh"]):
+                        fst, fhd, fbody = rec["fresh"][n]
+                        fkey = answer_key(kind, fst, fbody)
+                        if replay:
+                            print("   GET %s\n      refreshed: %s\n      fresh    : %s\n      before   : %s" % (url, key[:300], fkey[:300], (last.get(i) or "-")[:300]))
+                        if key != fkey:
+                            stats["stale-after-refresh"] += 1
+                            dd.add("stale-after-refresh", "history %s round %d (%s; names=%s mode=%s, cache %s): GET %s answered %s; a server freshly started on the files now on disk answers %s%s" % (
+                                h["did"], r, rd["what"], rd["names"], rd["mode"], "All" if h["cacheall"] else "One", url, key[:220], fkey[:220],
+                                "; the answer before the refresh was the same as now" if last.get(i) == key else ""), rt)
+                        else:
+                            if fbody != body: stats["refreshed and fresh bodies byte-different but canonically equal"] += 1
+                            if j and j.get("status") == "success" and i in last and last[i] != key and (kind != "summary" or (j.get("result") or {}).get("nbRoutes")):
+                                rep.nontrivial.add(hash((h["did"], r, i, key)))
+                                stats["success answers after a refresh that differ from the answer before it"] += 1
+                                if len(rep.samples) < 3:
+                                    rep.samples.append(dict(history=h["did"], round=r, refresh=rd["names"], change=rd["what"], request=url, before=last[i][:250], after=key[:250]))
+                            elif i in last and last[i] != key:
+                                stats["other answers that changed with the refresh"] += 1
+                        if rd["delete"]:
+                            want = None if rd["delete"] == ["everything"] else "MISSING_DATA_" + rd["delete"][0].upper()
+                            okd = j is not None and j.get("status") == "data_error" and (want is None or j.get("errorCode") == want)
+                            stats["refresh onto %s -> %s" % (rd["delete"][0], brief(st, hd, body))] += 1
+                            if not okd and key == fkey:
+                                dd.add("missing-kind-not-named", "history %s round %d: after deleting %s and refreshing all, GET %s answered %s (fresh server: the same); expected data_error%s" % (
+                                    h["did"], r, rd["delete"][0], url, brief(st, hd, body), " " + want if want else ""), rt)
+                    elif replay:
+                        print("   GET %s\n      answer   : %s" % (url, key[:300]))
+                    if ir is not None and not ir["impl_fail"] and not (r > 0 and n < len(rec["fresh"]) and key != answer_key(kind, *rec["fresh"][n][::2])):
+                        it, mt = ir["impl"][n], ir["model"][n]
+                        ht = key if st == 200 else "%s query_error %s" % (kind, (j or {}).get("errorCode"))
+                        if not HC._same_answer(ht, it):
+                            stats["http-vs-inmemory-mismatch"] += 1
+                            rep.corr.append(("inprocess(C15)", "history %s round %d: server and fresh server agree, the in-process calculation on the round's dataset differs: http=%s in-memory=%s" % (h["did"], r, ht[:200], (it or "none")[:200]), rt))
+                        elif not HC._same_answer(ht, mt) and not ir["model_fail"]:
+                            stats["http-vs-model-mismatch"] += 1
+                            rep.corr.append(("projection(C15)", "history %s round %d: server and in-process calculation agree, the Lean model differs: impl=%s model=%s" % (h["did"], r, ht[:200], (mt or "none")[:200]), rt))
+                    last[i] = key
+                if rd["mode"] == "start-empty":
+                    for st, hd, body in rec["long"]:
+                        j = parse_body(body) or {}
+                        stats["server on an empty directory -> %s" % brief(st, hd, body)] += 1
+            else:
+                if sv["died"] or (sv["san"] and sv["rc"] not in (-15, 0)):
+                    dd.add("crash-after-refresh", "history %s: the server process was found dead at the end (rc %s): %s" % (h["did"], sv["rc"], asan_summary(sv["san"])), c15_replay_text(h))
+                elif sv["san"]:
+                    dd.add("sanitizer-after-refresh", "history %s: sanitizer output of the long-lived server: %s" % (h["did"], asan_summary(sv["san"])), c15_replay_text(h))
+        rep.cov["input_distribution"] = dict(stats)
+        rep.cov["streams"] = dict(C15_STREAMS)
+        rep.cov["timing"] = dict(inproc_and_model_s=round(t_inproc, 1), http_s=round(t_http, 1), servers_in_parallel=PAR, mean_history_s=round(sum(s["t"] for s in served) / max(1, len(served)), 2))
+        rep.obligation("correspondence:inprocess-and-model(C15)", not rep.corr, "%d disagreement(s)" % len(rep.corr))
+        return rep.finish()
+    finally:
+        H.cleanup()
+
+
+# ============================================================================================== C17
+
+import queue as _queue
+
+C17_BREAK_CLASS = {
+    "trip_path": "trip-unknown-path", "trip_service": "trip-unknown-service", "trip_uuid": "malformed-trip-uuid", "trip_path_uuid": "malformed-trip-path-uuid",
+    "trip_empty": "trip-without-stop-times", "trip_long": "trip-more-times-than-path-stops", "trip_short_dep": "trip-short-departure-array",
+    "trip_short_flags": "trip-short-flag-arrays", "line_agency": "line-unknown-agency", "line_mode": "line-unknown-mode", "line_file_missing": "deleted-line-file",
+    "foot_unknown": "stop-file-unknown-stop", "foot_uuid": "malformed-footpath-uuid", "foot_short_time": "footpath-short-time-array",
+    "foot_short_dist": "footpath-short-distance-array", "node_file_missing": "deleted-node-file", "path_node": "path-unknown-stop", "path_line": "path-unknown-line",
+    "path_data": "path-data-not-json", "scenario_ids": "scenario-unknown-ids", "scenario_only_unknown": "scenario-only-unknown-ids", "scenario_uuid": "malformed-scenario-service-uuid",
+}
+# quick / thorough volumes: (datasets with the full byte-level enumeration, datasets with a reduced one, datasets for the --break kinds)
+C17_VOLUME = {"quick": dict(full=1, reduced=1, breaks=5, trunc=48, flips=150, pairs=40, zero=5, update_share=6),
+              "thorough": dict(full=3, reduced=6, breaks=40, trunc=None, flips=None, pairs=None, zero=12, update_share=4)}
+C17_RULE = ("fault enumeration on generated valid cache directories, each faulted directory given to the real ASan server binary (Euclidean geofilter) at START-UP and, for "
+            "every cross-file inconsistency, every deletion and a share of the byte-level faults, through GET /updateCache?names=all&path=<faulted dir> on a healthy running server: "
+            "deletion of each file and of pairs of files, truncation at 48 offsets per file (thorough: every offset of files <= 4 KiB), single-bit flips (150 per file kind; "
+            "thorough: every bit of files <= 1 KiB), zeroed ranges, every `cachegen --break` kind at record 0, record 1 and all records; outcome OK = process up, 4 requests "
+            "(2 route, accessibility, summary) each answered 200 success / no_routing_found / data_error with a documented code (or 400 EMPTY_SCENARIO / MISSING_PARAM_SCENARIO "
+            "when the scenario could not be loaded), still up afterwards, no sanitizer report; non-trivial = a faulted directory the loader noticed (error line or changed "
+            "answers) and survived; distinct = distinct (dataset, fault)")
+
+
+def c17_file_kind(rel):
+    if rel.startswith("nodes/"): return "node-file"
+    if rel.startswith("lines/"): return "line-file"
+    return rel.split(".")[0] + "-file"
+
+
+def c17_dataset(seed, k):
+    rng = random.Random(seed * 1000003 + k)
+    for _ in range(50):
+        d = dataset_with_scenarios(rng, rng.choice(["dense", "dense", "sparse", "xfer"]))
+        if not HC.c16_wellformed(d) and len(d["lines"]) >= 2 and len(d["trips"]) >= 3 and len(d["foot"]) > d["ns"] and d["nsv"] >= 1:
+            break
+    d["cacheall"] = k % 2
+    t0 = min(min(t[4]) for t in d["trips"]); t1 = max(max(t[3]) for t in d["trips"])
+    nsc = len(d["scenarios"])
+    reqs = [("route", dict(scenario=0, time_of_trip=max(0, t0 - 300), time_type=0, min_waiting_time=0, max_first_waiting_time=0)),
+            ("route", dict(scenario=nsc - 1, time_of_trip=t1 + 300, time_type=1, min_waiting_time=60)),
+            ("accessibility", dict(scenario=0, time_of_trip=max(0, t0 - 60), time_type=0, min_waiting_time=60, max_first_waiting_time=0)),
+            ("summary", dict(scenario=min(1, nsc - 1), time_of_trip=max(0, t0 - 300), time_type=0, alternatives="1"))]
+    return dict(did="C17-%d-%d" % (seed, k), d=d, reqs=reqs)
+
+
+def c17_list_files(vdir):
+    out = []
+    for dp, dn, fn in os.walk(vdir):
+        dn[:] = sorted(x for x in dn if not (dp == vdir and x == "f"))
+        for f in sorted(fn):
+            if f.endswith(".capnpbin"):
+                out.append(os.path.relpath(os.path.join(dp, f), vdir))
+    return out
+
+
+def c17_spread(n, k):
+    """k offsets spread over 0..n-1 including 0, 1, 2 and n-1 (all of them when n <= k)"""
+    if k is None or n <= k:
+        return list(range(n))
+    s = set([0, 1, 2, n - 1]) if n > 3 else set(range(n))
+    i = 0
+    while len(s) < k:
+        s.add(int(round((n - 1) * i / float(k)))); i += 1
+        if i > 4 * k: break
+    return sorted(s)
+
+
+def c17_faults(ds, vdir, vol, rng, byte_level, breaks):
+    """the fault list of one dataset: [dict(cls, spec)]"""
+    files = c17_list_files(vdir)
+    size = {f: os.path.getsize(os.path.join(vdir, f)) for f in files}
+    out = []
+    if byte_level:
+        reduced = byte_level == "reduced"
+        for f in files:
+            out.append(dict(cls="deleted-" + c17_file_kind(f), spec=dict(op="delete", files=[f])))
+        pairs = [(a, b) for i, a in enumerate(files) for b in files[i + 1:]]
+        np_ = vol["pairs"] if not reduced else (10 if vol["pairs"] else 60)
+        if np_ is not None and len(pairs) > np_: pairs = rng.sample(pairs, np_)
+        for a, b in pairs:
+            out.append(dict(cls="deleted-two-files", spec=dict(op="delete", files=[a, b])))
+        for f in files:
+            k = vol["trunc"] if not reduced else (12 if vol["trunc"] else 64)
+            if vol["trunc"] is None and not reduced and size[f] > 4096: k = 256
+            for off in c17_spread(size[f], k):
+                out.append(dict(cls="truncated-" + c17_file_kind(f), spec=dict(op="truncate", file=f, offset=off)))
+        by_kind = collections.defaultdict(list)
+        for f in files: by_kind[c17_file_kind(f)].append(f)
+        for kind, fs in sorted(by_kind.items()):
+            if vol["flips"] is None and not reduced:
+                for f in fs:
+                    bits = range(size[f] * 8) if size[f] <= 1024 else rng.sample(range(size[f] * 8), 4000)
+                    for b in bits: out.append(dict(cls="bitflip-" + kind, spec=dict(op="flip", file=f, bit=b)))
+            else:
+                n = vol["flips"] if not reduced else (40 if vol["flips"] else 400)
+                for _ in range(n):
+                    f = rng.choice(fs)
+                    out.append(dict(cls="bitflip-" + kind, spec=dict(op="flip", file=f, bit=rng.randrange(size[f] * 8))))
+        for f in files:
+            n = size[f]
+            rs = [(0, n), (0, min(8, n)), (0, n // 2), (n // 2, n - n // 2), (max(0, n - 8), min(8, n))]
+            while len(rs) < (vol["zero"] if not reduced else 3) + 2:
+                a = rng.randrange(n); rs.append((a, rng.randint(1, max(1, min(64, n - a)))))
+            for a, l in rs[:(vol["zero"] if not reduced else 3) + 2]:
+                if l > 0: out.append(dict(cls="zeroed-" + c17_file_kind(f), spec=dict(op="zero", file=f, start=a, len=l)))
+    if breaks:
+        for kind in breaks:
+            for tgt in ("", ":1", ":all"):
+                out.append(dict(cls=C17_BREAK_CLASS.get(kind, kind), spec=dict(op="break", kind=kind + tgt)))
+    return out
+
+
+def c17_make_faulted(vdir, spec, out, cachegen_exe):
+    if os.path.isdir(out): shutil.rmtree(out)
+    if spec["op"] == "break":
+        os.makedirs(out)
+        r = __import__("subprocess").run([cachegen_exe, os.path.join(vdir, "dataset.txt"), out, "--break", spec["kind"]], capture_output=True, text=True, timeout=60)
+        if r.returncode != 0: raise RuntimeError("cachegen --break %s failed: %s" % (spec["kind"], r.stderr[-300:]))
+        return
+    shutil.copytree(vdir, out, ignore=lambda dpath, names: ["f"] if os.path.abspath(dpath) == os.path.abspath(vdir) else [])
+    if spec["op"] == "delete":
+        for f in spec["files"]: os.remove(os.path.join(out, f))
+        return
+    p = os.path.join(out, spec["file"])
+    data = bytearray(open(p, "rb").read())
+    if spec["op"] == "truncate": data = data[:spec["offset"]]
+    elif spec["op"] == "flip": data[spec["bit"] // 8] ^= 1 << (spec["bit"] % 8)
+    elif spec["op"] == "zero": data[spec["start"]:spec["start"] + spec["len"]] = bytes(len(data[spec["start"]:spec["start"] + spec["len"]]))
+    with open(p, "wb") as f: f.write(bytes(data))
+
+
+def c17_spec_text(spec):
+    if spec["op"] == "delete": return "delete " + " + ".join(spec["files"])
+    if spec["op"] == "truncate": return "truncate %s at offset %d" % (spec["file"], spec["offset"])
+    if spec["op"] == "flip": return "flip bit %d (byte %d, mask 0x%02x) of %s" % (spec["bit"], spec["bit"] // 8, 1 << (spec["bit"] % 8), spec["file"])
+    if spec["op"] == "zero": return "zero %d bytes at offset %d of %s" % (spec["len"], spec["start"], spec["file"])
+    return "cachegen --break " + spec["kind"]
+
+
+def crash_kind(out, rc):
+    """(how, detail) of a dead server from its output and exit code: how in abort | asan | ubsan | signal | exit"""
+    m = re.search(r"terminate called after throwing an instance of '([^']+)'", out or "")
+    if m:
+        t = m.group(1)
+        m2 = re.fullmatch(r"boost::wrapexcept<(.+)>", t) or re.fullmatch(r"boost::exception_detail::clone_impl<.*?<?([\w:]+)>? ?>+", t)
+        return "abort", (m2.group(1).strip() if m2 else t)
+    m = re.search(r"AddressSanitizer: ([A-Za-z][A-Za-z-]+)", out or "")
+    if m:
+        k = m.group(1)
+        return "asan", ("out-of-memory" if k in ("allocator", "requested", "out") or "out of memory" in out or "allocation-size-too-big" in out else k)
+    m = re.search(r"runtime error: ([^\n]+)", out or "")
+    if m:
+        txt = re.sub(r"'[^']*'", "", m.group(1)); txt = re.sub(r"0x[0-9a-f]+|-?\d+", "", txt)
+        return "ubsan", "-".join(txt.replace(",", " ").split()[:4])
+    if "terminate called" in (out or ""): return "abort", "unknown"
+    if "std::bad_alloc" in (out or ""): return "abort", "std::bad_alloc"
+    if rc is not None and rc < 0: return "signal", str(-rc)
+    return "exit", "rc%s" % rc
+
+
+def c17_probe(srv, urls, codes, timeout=15.0):
+    """4 requests against a server that is up.  -> (outcome text, None | (signature tail, description), answer keys)"""
+    keys = []
+    first = None
+    for kind, url in urls:
+        st, hd, body, raw = srv.get(url, timeout=timeout)
+        if st is None:
+            t0 = time.time()
+            while srv.alive() and time.time() - t0 < 3.0: time.sleep(0.05)
+            if not srv.alive():
+                time.sleep(0.3)
+                how, det = crash_kind(srv.output(), srv.proc.poll())
+                return "died-serving:%s:%s" % (how, det), ("dies-serving-%s" % how, det, "GET %s killed the server: %s" % (url, asan_summary(srv.sanitizer_output() or srv.output()[-600:]))), keys
+            return "no-response", ("no-response", hd.get("_error"), "GET %s got no HTTP response (%s), process alive" % (url, hd.get("_error"))), keys
+        bad, j = well_formed(kind, st, hd, body, codes, allow_data_error=True)
+        if not bad and st == 400 and j.get("errorCode") not in ("EMPTY_SCENARIO", "MISSING_PARAM_SCENARIO"):
+            bad = "HTTP 400 %s for a valid request" % j.get("errorCode")
+        if bad:
+            return "bad-answer", ("bad-answer", (j or {}).get("errorCode") or "malformed", "GET %s: %s" % (url, bad)), keys
+        keys.append(answer_key(kind, st, body))
+        if first is None:
+            first = "%s" % (j.get("status") if st == 200 else "query_error") + ((":" + j["errorCode"]) if j.get("errorCode") else "")
+    if not srv.alive():
+        how, det = crash_kind(srv.output(), srv.proc.poll())
+        return "died-serving:%s:%s" % (how, det), ("dies-serving-%s" % how, det, "the server died after answering: %s" % asan_summary(srv.sanitizer_output() or srv.output()[-600:])), keys
+    return "ok:" + first, None, keys
+
+
+def c17_startup_test(fdir, urls, codes, server_exe, cache_all, tag):
+    """-> dict(outcome, fail=None|(sig head, detail, description), noticed, keys)"""
+    srv = H.start_server(fdir, euclid=True, exe=server_exe, cache_all=cache_all, ready_timeout=25.0, tag=tag)
+    try:
+        if srv is None:
+            return dict(outcome="harness", fail=None, noticed=False, keys=[])
+        if getattr(srv, "ready_s", None) is None:
+            if srv.alive():
+                # not ready within the time-out: once more, with patience, before it is called a hang
+                srv.stop()
+                srv = H.start_server(fdir, euclid=True, exe=server_exe, cache_all=cache_all, ready_timeout=90.0, tag=tag + "b")
+                if getattr(srv, "ready_s", None) is None and srv.alive():
+                    return dict(outcome="startup-hang", fail=("startup-hang", "", "the server neither answers nor exits within 90 s of start-up: " + srv.output()[-300:]), noticed=True, keys=[])
+            if getattr(srv, "ready_s", None) is None:
+                time.sleep(0.2)
+                out = srv.output()
+                how, det = crash_kind(out, srv.proc.poll())
+                return dict(outcome="startup-%s:%s" % (how, det), fail=("startup-" + how, det, "start-up ends with exit code %s: %s" % (srv.proc.poll(), asan_summary(srv.sanitizer_output() or out[-800:]))), noticed=True, keys=[])
+        outcome, fail, keys = c17_probe(srv, urls, codes)
+        noticed = "[error]" in srv.output()
+        died = not srv.alive()
+        rc, san = srv.stop(); srv = None
+        if fail is None and san and not died:
+            how, det = crash_kind(san, rc)
+            fail = ("serving-" + how, det, "sanitizer report of a server that kept answering: " + asan_summary(san)); outcome = "sanitizer-report"
+        return dict(outcome=outcome, fail=fail, noticed=noticed, keys=keys)
+    finally:
+        if srv is not None:
+            srv.stop()
+
+
+class C17Healthy:
+    """a healthy running server on the valid directory, reused for the /updateCache tests of one worker"""
+    def __init__(self, vdir, server_exe, cache_all, tag):
+        self.vdir, self.exe, self.cache_all, self.tag = vdir, server_exe, cache_all, tag
+        self.srv, self.used = None, 0
+
+    def get(self, fresh=False):
+        if fresh or self.srv is None or not self.srv.alive():
+            self.stop()
+            self.srv = H.start_server(self.vdir, euclid=True, exe=self.exe, cache_all=self.cache_all, tag=self.tag)
+            self.used = 0
+            if self.srv is None or getattr(self.srv, "ready_s", None) is None:
+                raise RuntimeError("healthy server does not start on the valid directory: " + (self.srv.output()[-300:] if self.srv else ""))
+        return self.srv
+
+    def stop(self):
+        if self.srv is not None:
+            try: return self.srv.stop()
+            finally: self.srv = None
+        return None, ""
+
+
+def c17_update_test(holder, sub, urls, codes):
+    def once(fresh):
+        srv = holder.get(fresh=fresh)
+        mark = len(srv.output())
+        u = "/updateCache?names=all&path=" + sub
+        st, hd, body, raw = srv.get(u, timeout=40.0)
+        holder.used += 1
+        if st is None:
+            t0 = time.time()
+            while srv.alive() and time.time() - t0 < 3.0: time.sleep(0.05)
+            if not srv.alive():
+                time.sleep(0.3)
+                how, det = crash_kind(srv.output()[mark:], srv.proc.poll())
+                return dict(outcome="update-%s:%s" % (how, det), fail=("update-" + how, det, "GET %s kills the healthy running server (exit code %s): %s" % (u, srv.proc.poll(), asan_summary(srv.sanitizer_output() or srv.output()[-800:]))), noticed=True, keys=[])
+            tail = " ".join(srv.output()[mark:].split())[-200:]
+            holder.stop()            # its data set is half-refreshed now: do not reuse it
+            return dict(outcome="update-no-response", fail=("update-no-response", "", "GET %s gets no HTTP response (%s); the process stays up with a half-refreshed data set; log ends: %s" % (u, hd.get("_error"), tail)), noticed=True, keys=[])
+        j = parse_body(body) if st == 200 else None
+        if not (j and j.get("status") == "success"):
+            return dict(outcome="update-bad-answer", fail=("update-bad-answer", "", "GET %s answered %s %r" % (u, st, body[:120])), noticed=True, keys=[])
+        outcome, fail, keys = c17_probe(srv, urls, codes)
+        noticed = "[error]" in srv.output()[mark:]
+        if fail is not None:
+            fail = ("update-then-" + fail[0], fail[1], "after GET %s: %s" % (u, fail[2]))
+            holder.stop()
+        return dict(outcome=outcome, fail=fail, noticed=noticed, keys=keys)
+    used_before = holder.used if holder.srv is not None and holder.srv.alive() else 0
+    res = once(False)
+    if res["fail"] is not None and used_before > 0 and res["outcome"] != "update-no-response":
+        # the server had gone through other faulted refreshes before: the alarm must reproduce on a fresh healthy server
+        res2 = once(True)
+        if res2["fail"] is None:
+            res["fail"] = ("update-sequence-" + res["fail"][0], res["fail"][1], res["fail"][2] + " -- only after %d earlier faulted refreshes, NOT reproduced on a fresh healthy server" % used_before)
+        else:
+            res = res2
+            res["fail"] = (res["fail"][0], res["fail"][1], res["fail"][2] + " (reproduced on a fresh healthy server)")
+    return res
+
+
+def c17_replay_text(ds, fault, mode):
+    return ("# C17 replay: the fault, then the dataset whose cache directory is faulted\nfault mode=%s class=%s spec=%s\n" % (mode, fault["cls"], json.dumps(fault["spec"], sort_keys=True))
+            + HC.block_text(ds["did"], ds["d"], ds["reqs"]))
+
+
+def c17_signature(fail, cls):
+    head, det, desc = fail
+    return "%s:%s%s" % (head, cls, (":" + det) if det else "")
+
+
+def run_c17(tier, seed, replay=None, theorems=None, module=None):
+    ths = theorems or []
+    rep = core.Report("C17", tier, seed, level="proof" if ths else "exploration")
+    rep.rule = C17_RULE
+    rep.assumptions = [
+        "behaviour of the Cap'n Proto decoder on hostile bytes is observed under ASan+UBSan, not modelled",
+        "a 400 EMPTY_SCENARIO / MISSING_PARAM_SCENARIO answer to a request naming a scenario the faulted files no longer define counts as 'serves what it could load'",
+        "after a failed load the error code names the first EMPTY table, not the file that failed (DESIGN 7a O7): any documented data_error code is accepted",
+        "an /updateCache test reuses one healthy server for several faulted directories; an alarm seen there is re-run on a fresh healthy server before it is reported",
+    ]
+    stats = collections.Counter()
+    outcomes = {"startup": collections.defaultdict(collections.Counter), "update": collections.defaultdict(collections.Counter)}
+    tq = "thorough" if tier == "thorough" else "quick"
+    vol = C17_VOLUME[tq]
+    try:
+        core.lean_phase(rep, module if ths else None, ths, thorough=(tier == "thorough"))
+        server = core.harness_phase(rep, "server", "asan")
+        cachegen = core.harness_phase(rep, "cachegen", "plain")
+        try:
+            codes = HC.documented_codes()
+            rep.obligation("docs:error-code-enums", True, "")
+        except Exception as e:
+            rep.obligation("docs:error-code-enums", False, str(e)); codes = None
+        if not server or not cachegen or not codes:
+            return rep.finish()
+        wd = H.workdir("c17")
+        breaks = H.cachegen_breaks(cachegen)
+        unknown = [b for b in breaks if b not in C17_BREAK_CLASS]
+        rep.obligation("cachegen:break-kinds-classified", not unknown, "unclassified --break kinds: %s" % unknown)
+        plans = []           # (dataset, fault, do_update)
+        if replay:
+            text = open(replay).read()
+            m = re.search(r"^fault mode=(\S+) class=(\S+) spec=(.+)$", text, re.M)
+            did, d, reqs, _ = gen.parse_protocol("".join(l for l in text.splitlines(True) if not l.startswith(("#", "fault "))))
+            d["acc"] = sorted(d["acc"]); d["egr"] = sorted(d["egr"])
+            ds = dict(did=re.sub(r"[^A-Za-z0-9_.-]", "_", did), d=d, reqs=[(k, q) for k, q in (gen.parse_query(r) for r in reqs)])
+            dsets = [(ds, None, None)]
+            replay_fault = dict(cls=m.group(2), spec=json.loads(m.group(3)))
+        else:
+            dsets = []
+            k = 0
+            for i in range(vol["full"]): dsets.append((c17_dataset(seed, k), "full", breaks)); k += 1
+            for i in range(vol["reduced"]): dsets.append((c17_dataset(seed, k), "reduced", breaks)); k += 1
+            for i in range(vol["breaks"]): dsets.append((c17_dataset(seed, k), None, breaks)); k += 1
+        t0 = time.time()
+        dd = Dedup(rep, stats)
+        for ds, byte_level, brk in dsets:
+            vdir = os.path.join(wd, ds["did"])
+            H.make_cache(ds["d"], vdir, did=ds["did"], cachegen=cachegen)
+            os.makedirs(os.path.join(vdir, "f"))
+            urls = [(kind, H.route_query(q, kind)) for kind, q in ds["reqs"]]
+            cache_all = bool(ds["d"].get("cacheall"))
+            # the valid directory itself must be served
+            base = c17_startup_test(vdir, urls, codes, server, cache_all, ds["did"] + "-valid")
+            if base["fail"] is not None or not base["outcome"].startswith("ok:"):
+                dd.add("valid-directory-not-served", "the unfaulted generated directory: %s %s" % (base["outcome"], base["fail"][2] if base["fail"] else ""), HC.block_text(ds["did"], ds["d"], ds["reqs"]))
+                continue
+            stats["valid directory -> " + base["outcome"]] += 1
+            if replay:
+                faults = [replay_fault]
+            else:
+                faults = c17_faults(ds, vdir, vol, random.Random(seed * 1000003 + 300000 + dsets.index((ds, byte_level, brk))), byte_level, brk)
+            frng = random.Random(seed * 1000003 + 400000)
+            for n, f in enumerate(faults):
+                f["id"] = n
+                f["update"] = bool(replay) or f["spec"]["op"] in ("break", "delete") or frng.randrange(vol["update_share"]) == 0
+            q = _queue.Queue()
+            for f in faults: q.put(f)
+            results = {}
+
+            def worker(w):
+                holder = C17Healthy(vdir, server, cache_all, "%s-h%d" % (ds["did"], w))
+                try:
+                    while True:
+                        try: f = q.get_nowait()
+                        except _queue.Empty: return
+                        sub = "f/%d" % f["id"]
+                        fdir = os.path.join(vdir, sub)
+                        r = dict(startup=None, update=None, error=None)
+                        try:
+                            c17_make_faulted(vdir, f["spec"], fdir, cachegen)
+                            r["startup"] = c17_startup_test(fdir, urls, codes, server, cache_all, "%s-%d" % (ds["did"], f["id"]))
+                            if f["update"]:
+                                r["update"] = c17_update_test(holder, sub, urls, codes)
+                        except Exception as e:
+                            r["error"] = "%s: %s" % (type(e).__name__, e)
+                        finally:
+                            shutil.rmtree(fdir, ignore_errors=True)
+                        results[f["id"]] = r
+                finally:
+                    holder.stop()
+            ts = [threading.Thread(target=worker, args=(w,)) for w in range(PAR)]
+            for t in ts: t.start()
+            for t in ts: t.join()
+            for f in faults:
+                r = results.get(f["id"]) or dict(startup=None, update=None, error="not run")
+                what = c17_spec_text(f["spec"])
+                if r["error"]:
+                    stats["harness errors"] += 1
+                    rep.notes.append("%s %s: harness error %s" % (ds["did"], what, r["error"][:200]))
+                for mode in ("startup", "update"):
+                    t = r[mode]
+                    if t is None: continue
+                    rep.evaluations += 1
+                    stats["tests %s" % mode] += 1
+                    stats["tests %s" % f["cls"].split("-")[0]] += 1
+                    outcomes[mode][f["cls"]][t["outcome"]] += 1
+                    if replay:
+                        print("%s  [%s] %s\n   -> %s%s\n   answers: %s" % (mode, f["cls"], what, t["outcome"], ("\n   " + t["fail"][2]) if t["fail"] else "", [k[:100] for k in t["keys"]]))
+                    if t["fail"] is not None:
+                        sig = c17_signature(t["fail"], f["cls"])
+                        dd.add(sig, "%s, dataset %s (seed %d), %s: %s" % (what, ds["did"], seed, "at start-up" if mode == "startup" else "through /updateCache?names=all on a healthy running server", t["fail"][2]),
+                               c17_replay_text(ds, f, mode))
+                    elif t["noticed"] or t["keys"] != base["keys"]:
+                        rep.nontrivial.add(hash((ds["did"], json.dumps(f["spec"], sort_keys=True), mode)))
+                        if len(rep.samples) < 4 and t["keys"] != base["keys"]:
+                            rep.samples.append(dict(dataset=ds["did"], fault=what, mode=mode, outcome=t["outcome"], answers=[k[:120] for k in t["keys"]], healthy_answers=[k[:120] for k in base["keys"]]))
+            shutil.rmtree(vdir, ignore_errors=True)
+        rep.cov["fault_outcomes"] = {mode: {cls: dict(c) for cls, c in sorted(o.items())} for mode, o in outcomes.items()}
+        rep.cov["signatures"] = {k[4:]: v for k, v in stats.items() if k.startswith("sig ")}
+        rep.cov["input_distribution"] = {k: v for k, v in stats.items() if not k.startswith("sig ")}
+        rep.cov["timing"] = dict(run_s=round(time.time() - t0, 1), servers_in_parallel=PAR)
+        return rep.finish()
+    finally:
+        H.cleanup()
